@@ -176,6 +176,8 @@ def _generation(ctx, repo) -> None:
 
 def check(ctx) -> None:
     repo = ctx.repo
+    ctx.rule("C23.hashable", "ABSINT + WHO-MAY: the reference pool offers only hashable bindings as elements of a set; every caller states the collection type", floor=7)
+    _hashable_elements(ctx, repo)
     ctx.rule("C23.escape", "WHO-MAY: no read of a libcst string node's raw_value (escape sequences unprocessed) where the value of a literal is needed; expected count zero, detector self-checked on a synthetic positive", floor=1)
     from sa.engine.prop import raw_string_value_reads, raw_string_value_selfcheck
     if not raw_string_value_selfcheck():
@@ -378,3 +380,40 @@ def check(ctx) -> None:
             for c in own_nodes(f):
                 if isinstance(c, ast.Call) and isinstance(c.func, ast.Name) and c.func.id in repo.module(m).functions:
                     stack.append(repo.module(m).functions[c.func.id])
+
+
+def _hashable_elements(ctx, repo) -> None:
+    """References offered as elements of a set literal are bound to hashable values: _reference_pool, interpreted over a
+    test case binding a list, a dict, a set, an int, a str, a tuple and an untyped variable, offers for a set only the
+    hashable ones (and all of them for a list); every caller tells the pool which collection it fills."""
+    TF = "pynguin.testcase.testfactory"
+    fn = repo.try_func(TF, "TestFactory._reference_pool")
+    if fn is None:
+        raise AnalysisError("anchor vanished: TestFactory._reference_pool")
+    ctx.analysed(fn)
+    mod = repo.module(TF)
+    spec = [("var_0", list), ("var_1", dict), ("var_2", set), ("var_3", int), ("var_4", str), ("var_5", tuple), ("var_6", None), (None, None), ("var_8", bytearray), ("var_9", frozenset)]
+    stmts = [peval.Obj("stmt", fields={"bound_variable": v, "bound_type": t}) for v, t in spec]
+    tcase = peval.Obj("test_case")
+    tcase.methods["statements"] = lambda: list(stmts)
+    params = [a.arg for a in fn.args.args]
+    for container, want in ((set, ["var_3", "var_4", "var_5", "var_9"]), (list, [v for v, _t in spec if v]), (None, [v for v, _t in spec if v])):
+        tag = f"[element pool] for a {'collection of unknown type' if container is None else container.__name__}"
+        it = peval.Interp(resolver=peval.repo_resolver(repo), ctor_prefixes=("cst.",), max_steps=20000)
+        args = [peval.Obj("factory"), tcase, len(spec)] + ([container] if len(params) > 3 else [])
+        try:
+            out = it.run_function(fn, args, {}, mod)
+        except (peval.Undecided, peval.Raises) as exc:
+            ctx.undecide("C23.hashable", fn, f"{tag}: {exc}")
+            continue
+        names = [t.fields.get("value") if isinstance(t, peval.Term) else getattr(t, "value", None) for t in out]
+        if not names or not all(isinstance(n_, str) for n_ in names):
+            names = [t.args[0] if isinstance(t, peval.Term) and t.args else n_ for t, n_ in zip(out, names)]
+        ok = names == want
+        ctx.check("C23.hashable", fn, ok, f"{tag} the pool offers {names}, expected {want}: " + ("a set literal gets a reference to an unhashable value - `var_1 = {var_0, 1}` with a list var_0 raises TypeError, so the literal does not evaluate to a set" if container is set else "in-scope variables are withheld"), what=f"{tag}: {want}", stmt=tag)
+    callers = [(qn, c) for _m, qn, f in repo.all_functions(TF) for c in own_nodes(f) if isinstance(c, ast.Call) and last_attr(c) == "_reference_pool"]
+    for qn, c in callers:
+        ok = len(c.args) >= 3 or any(k.arg == "container" for k in c.keywords)
+        ctx.check("C23.hashable", c, ok, f"{qn}: `{norm(c)}` does not say which collection the references are for: a set built from this pool may reference a list or dict", what=f"{qn}: pool asked for a stated collection type", stmt=f"[pool caller] {qn}: {norm(c)[:50]}")
+    if len(callers) < 4:
+        raise AnalysisError(f"C23.hashable: only {len(callers)} callers of _reference_pool (confirmed by reading: 5)")
